@@ -3,10 +3,12 @@ pub mod c01;
 pub mod c08;
 pub mod c09;
 pub mod c15;
+pub mod c16;
 pub mod c17;
+pub mod c19;
 
 use common::Monitor;
 
 pub fn all() -> Vec<Box<dyn Monitor>> {
-    vec![Box::new(c01::C01), Box::new(c08::C08), Box::new(c09::C09), Box::new(c15::C15), Box::new(c17::C17)]
+    vec![Box::new(c01::C01), Box::new(c08::C08), Box::new(c09::C09), Box::new(c15::C15), Box::new(c16::C16), Box::new(c17::C17), Box::new(c19::C19)]
 }
